@@ -61,7 +61,9 @@ def build(P):
                 base = b"\n".join(ls[:r.randrange(len(ls) + 1)] + other[r.randrange(len(other)):][:20]) + b"\n"
             prog = mutate(r, base)[:2048]
             stdin = r.choice([b"", b"5\n", b"abc\n\n\n", b"\xff\x00\n" + b"9" * 40 + b"\n", b"TRUE\n1.5\nx\n", b"no newline at end"])
-            cases.append(Case(id="C01-mut-%d" % i, prog=prog, stdin=stdin, ped=r.choice([False, False, "-p"]), files={"tests/data.txt": ("f", b"l1\nl2\n"), "f.txt": ("f", b"text\n")}))
+            nondet = re.search(rb"RAND|TODAY|TIME|HOURS|MINUTES|SECONDS", prog) is not None
+            cases.append(Case(id="C01-mut-%d" % i, prog=prog, stdin=stdin, ped=r.choice([False, False, "-p"]), files={"tests/data.txt": ("f", b"l1\nl2\n"), "f.txt": ("f", b"text\n")},
+                              meta=dict(compare=()) if nondet else {}))
         for ch in chunks(cases, 500):
             yield ("mutants", ch)
         # (b) token sequences up to length 3 over the vocabulary, as REPL entries
@@ -83,6 +85,29 @@ def build(P):
             ped = "-p" if k % 5 == 0 else False
             yield ("token-sequences", [Case(id="C01-seq-%d" % k, mode="repl", ped=ped, stdin=("\n".join(SETUP_LINES + body) + "\n").encode("latin1"),
                                             files={"f.txt": ("f", b"text\n")}, meta=dict(units=ch, noshrink=False))])
+        # (b2) every built-in function on boundary arguments of its parameter types (and of wrong types)
+        import extract
+        try:
+            bl = extract.builtins()
+        except Exception:
+            bl = []
+        POOL = {"int": ["0", "1", "- 1", "2", "255", "256", "9223372036854775807", "- 9223372036854775807", "(- 9223372036854775807 - 1)", "2147483648"],
+                "real": ["0.0", "1.0", "- 1.0", "0.5", "- 0.0", "1000000000000000000000.0", "0.0000001", "1.0 / 3"],
+                "str": ['""', '"a"', '"abc"', '"12"', '" "', '"1e5"', '"-"'], "chr": ["'a'", "' '", "CHR(0)", "CHR(255)", "'9'"],
+                "date": ["1/1/2000", "29/2/2024", "31/12/9999"], "bool": ["TRUE", "FALSE"]}
+        ents = []
+        for name, ps, ret in bl:
+            combos = list(itertools.product(*[POOL[t] for _, t in ps])) if ps else [()]
+            if len(combos) > 150: combos = r.sample(combos, 150)
+            for c in combos:
+                ents.append("%s(%s)" % (name, ", ".join(c)))
+            # wrong arity / wrong types
+            ents.append("%s(%s)" % (name, ", ".join(["1"] * (len(ps) + 1))))
+            if ps: ents.append("%s(%s)" % (name, ", ".join(['"x"' if t != "str" else "1" for _, t in ps])))
+        k = 0
+        for ch in chunks(ents, 300):
+            k += 1
+            yield ("builtin-boundaries", [repl_case("C01-bi-%d" % k, ch, files={"f.txt": ("f", b"text\n")}, meta=dict(units=ch, compare=("diagkind",)))])
         # (c) stdin shapes
         cases = []
         for i, (prog, stdin) in enumerate(itertools.product(
@@ -268,7 +293,8 @@ def build(P):
             r = rng_for(seed, "C11b", i)
             for fk, flines in RT_FAULTS.items():
                 for depth in range(0, 5):
-                    L = []
+                    L = ["FUNCTION Idf(v : INTEGER) RETURNS INTEGER", "RETURN v", "ENDFUNCTION"] if i % 2 == 1 else []
+                    argform = (lambda: r.choice(["(Idf(Idf(1)))", "(Idf(2) + Idf(3))", "(1)"])) if i % 2 == 1 else (lambda: "")
                     # padding statements
                     def pad():
                         for _ in range(r.randint(0, 3)): L.append(r.choice(["OUTPUT \"pad\"", "pv <- 1", "", "// note", "IF TRUE THEN", ]) )
@@ -279,13 +305,13 @@ def build(P):
                     fault_line = None
                     body_of = {}
                     for d in range(depth, 0, -1):
-                        L.append("PROCEDURE %s" % names[d - 1])
+                        L.append("PROCEDURE %s%s" % (names[d - 1], "(pv : INTEGER)" if i % 2 == 1 else ""))
                         for _ in range(r.randint(0, 2)): L.append("OUTPUT \"in %s\"" % names[d - 1])
                         if d == depth:
                             for fl in flines[:-1]: L.append(fl)
                             L.append(flines[-1]); fault_line = len(L)
                         else:
-                            L.append("CALL %s" % names[d]); call_lines[d] = len(L)
+                            L.append("CALL %s%s" % (names[d], argform())); call_lines[d] = len(L)
                         L.append("OUTPUT \"not reached\"")
                         L.append("ENDPROCEDURE")
                         for _ in range(r.randint(0, 2)): L.append(r.choice(["", "// c"]))
@@ -295,7 +321,7 @@ def build(P):
                         L.append(flines[-1]); fault_line = len(L)
                         chain = [("Program", fault_line)]
                     else:
-                        L.append("CALL %s" % names[0]); call_lines[0] = len(L)
+                        L.append("CALL %s%s" % (names[0], argform())); call_lines[0] = len(L)
                         chain = [(names[depth - 1], fault_line)]
                         for d in range(depth - 1, 0, -1): chain.append((names[d - 1], call_lines[d]))
                         chain.append(("Program", call_lines[0]))
